@@ -18,6 +18,39 @@ fn main() {
         let marker = args.get(3).cloned().unwrap_or_default();
         std::process::exit(umverif::c16::child_main(port, marker));
     }
+    if property == "PERSIST-RACE" {
+        // probe: is the metadata file complete when update_meta_file() has returned?
+        let n: usize = args.get(2).and_then(|p| p.parse().ok()).unwrap_or(2000);
+        let rt = tokio::runtime::Builder::new_multi_thread().worker_threads(4).enable_all().build().expect("rt");
+        let bad = rt.block_on(async move {
+            let file = format!("/tmp/persist-race-{}.json", std::process::id());
+            let cfg = umverif::broker::BrokerCfg { migration_limit: 0, failure_ttl: 600, failure_quorum: 1, ordered: false };
+            let svc = umverif::broker::new_service(&cfg, &file);
+            for i in 0..60 {
+                let host = format!("10.1.{}.{}", i % 3, i / 3 + 1);
+                let payload = serde_json::json!({"proxy_address": format!("{}:7000", host), "nodes": [format!("{}:6000", host), format!("{}:6001", host)], "host": host, "index": null});
+                let _ = svc.add_proxy(serde_json::from_value(payload).expect("payload")).await;
+            }
+            let _ = svc.add_cluster("c".to_string(), 40).await;
+            let mut bad = 0;
+            for i in 0..n {
+                if svc.update_meta_file().await.is_err() {
+                    continue;
+                }
+                let bytes = std::fs::read(&file).unwrap_or_default();
+                if serde_json::from_slice::<serde_json::Value>(&bytes).is_err() {
+                    bad += 1;
+                    if bad <= 3 {
+                        println!("iteration {}: the file has {} bytes and is not valid JSON right after update_meta_file() returned Ok", i, bytes.len());
+                    }
+                }
+            }
+            let _ = std::fs::remove_file(&file);
+            bad
+        });
+        println!("PERSIST-RACE incomplete files: {} of {}", bad, n);
+        std::process::exit(if bad > 0 { 1 } else { 0 });
+    }
     let mut tier = std::env::var("VERIF_TIER").unwrap_or_else(|_| "quick".to_string());
     let mut seed: u64 = std::env::var("VERIF_SEED")
         .ok()
